@@ -123,6 +123,9 @@ func Map[T any](n int, f func(i int) *T, o Opts) Result[T] {
 	if w := os.Getenv("VERIF_PAR_WORKER"); w != "" {
 		parts := strings.Split(w, "/")
 		if parts[0] == o.Name {
+			if os.Getenv("VERIF_PAR_CONFIRM") != "" {
+				o.CaseTimeout *= 15 // confirmation run of a single case that hit the watchdog (see Map)
+			}
 			shard, _ := strconv.Atoi(parts[1])
 			of, _ := strconv.Atoi(parts[2])
 			skip, _ := strconv.Atoi(parts[3])
@@ -150,6 +153,27 @@ func Map[T any](n int, f func(i int) *T, o Opts) Result[T] {
 		}(s)
 	}
 	wg.Wait()
+	// A case that hit the per-case watchdog is only reported as a hang after a confirmation run: the case alone in a
+	// fresh worker, once every shard is done (idle machine), with 15 times the timeout. A case that was merely starved on
+	// a loaded machine completes there and its result is used; a real non-termination hangs again and stays Abnormal.
+	var hung []Abnormal
+	kept := res.Abnormal[:0]
+	for _, a := range res.Abnormal {
+		if a.Kind == "hang" {
+			hung = append(hung, a)
+		} else {
+			kept = append(kept, a)
+		}
+	}
+	res.Abnormal = kept
+	for _, a := range hung {
+		oc := o
+		oc.Workers = n // stride n: the worker runs index a.Idx only
+		oc.Env = append(append([]string{}, o.Env...), "VERIF_PAR_CONFIRM=1")
+		if _, done := runWorker(n, a.Idx, oc, 0, &mu, &res); done {
+			res.Counts["watchdog_hits_not_confirmed"]++
+		}
+	}
 	sort.Slice(res.Abnormal, func(i, j int) bool { return res.Abnormal[i].Idx < res.Abnormal[j].Idx })
 	return res
 }
